@@ -112,7 +112,7 @@ def specSegRhs (m0 : Content) (tbl : Table) (p : Pars) : Except Err Table :=
       mapE (fun r => match pointRow c r.1 r.2 with
         | .error e => .error e
         | .ok row =>
-          match rhsFromArgs cache (omKeys c.vars) (("time", r.1) :: row) with
+          match rhsFromArgs cache (omKeys c.vars) ((("time", r.1) :: row) ++ c.data) with
           | .error e => .error e
           | .ok d => .ok (r.1, d)) tbl
 
